@@ -304,23 +304,31 @@ pub open spec fn inline_exprs(els: Seq<ParagraphElement>) -> Seq<Expression> dec
 """
 
 
-def comment_fn(text):
-    """`comment` (whole body), verified against the contract PROVED for `paragraph_element` in the same file: `for el in par.elements.iter()` -> index `while` (the body uses
-    `continue`), `paragraph_element(&el, p)` -> `paragraph_element(el, p)`, `p.out_values.borrow_mut().insert(k, v.clone())` -> `p.out_values_insert(k, v)`, `MResult` -> `Result<_, MechError>`"""
-    sig, body = extract_fn(text, "comment")
-    b = re.sub(r"//[^\n]*", "", body[body.index("{") + 1:body.rindex("}")]).replace("\r", "")
-    b = vC16.apply_cfg(b, _features())
+def _para_loop(b, owner, what):
+    """the loop over a paragraph's elements: `for el in P.elements.iter()` -> index `while` (the body uses `continue`), `paragraph_element(&el, p)` -> `paragraph_element(el, p)`,
+    `p.out_values.borrow_mut().insert(k, v.clone())` -> `p.out_values_insert(k, v)`"""
     b, n1 = re.subn(r"for\s+(\w+)\s+in\s+(\w+)\.elements\.iter\(\)\s*\{",
                     lambda m: ("let mut i_: usize = 0;\n  while i_ < %s.elements.len()\n"
-                               "    invariant i_ <= %s.elements@.len(), %s.elements@ == cmmt.paragraph.elements@, p.vars == old(p).vars, p.evals@ == old(p).evals@ + inline_exprs(%s.elements@.subrange(0, i_ as int)),\n"
+                               "    invariant i_ <= %s.elements@.len(), %s.elements@ == %s.elements@, p.vars == old(p).vars, p.evals@ == old(p).evals@ + inline_exprs(%s.elements@.subrange(0, i_ as int)),\n"
                                "    decreases %s.elements@.len() - i_,\n  {\n    let %s = &%s.elements[i_]; i_ += 1;\n"
                                "    proof { assert(%s.elements@.subrange(0, i_ as int).drop_last() =~= %s.elements@.subrange(0, i_ - 1)); }"
-                               % (m.group(2), m.group(2), m.group(2), m.group(2), m.group(2), m.group(1), m.group(2), m.group(2), m.group(2))), b)
-    b = re.sub(r"(Ok\(\s*Value::Empty\s*\)\s*)$", r"proof { assert(cmmt.paragraph.elements@.subrange(0, cmmt.paragraph.elements@.len() as int) =~= cmmt.paragraph.elements@); }\n  \1", b.rstrip())
+                               % (m.group(2), m.group(2), m.group(2), owner, m.group(2), m.group(2), m.group(1), m.group(2), m.group(2), m.group(2))), b)
     b = re.sub(r"paragraph_element\(\s*&(\w+)\s*,", r"paragraph_element(\1,", b)
     b = re.sub(r"\b(\w+)\.out_values\.borrow_mut\(\)\.insert\(\s*(\w+)\s*,\s*(\w+)\.clone\(\)\s*\)", r"\1.out_values_insert(\2, \3)", b)
     if n1 != 1 or re.search(r"\b(borrow_mut|iter)\b", b):
-        raise AnchorLost("comment: the element loop is outside the transcription rules")
+        raise AnchorLost(what + ": the element loop is outside the transcription rules")
+    return b + "\n  proof { assert(%s.elements@.subrange(0, %s.elements@.len() as int) =~= %s.elements@); }\n" % (owner, owner, owner)
+
+
+def comment_fn(text):
+    """`comment` (whole body), verified against the contract PROVED for `paragraph_element` in the same file (loop rules: _para_loop); `MResult` -> `Result<_, MechError>`"""
+    sig, body = extract_fn(text, "comment")
+    b = re.sub(r"//[^\n]*", "", body[body.index("{") + 1:body.rindex("}")]).replace("\r", "")
+    b = vC16.apply_cfg(b, _features()).rstrip()
+    m = re.search(r"Ok\(\s*Value::Empty\s*\)\s*$", b)
+    if not m:
+        raise AnchorLost("comment: the function no longer ends in `Ok(Value::Empty)`")
+    b = _para_loop(b[:m.start()], "cmmt.paragraph", "comment") + "  " + b[m.start():]
     return (COMMENT_SPEC +
             "fn comment(cmmt: &Comment, p: &mut Interpreter) -> (res: Result<Value, MechError>)\n"
             "  ensures final(p).vars == old(p).vars,          // a comment writes no variable\n"
@@ -329,9 +337,27 @@ def comment_fn(text):
             + b + "\n}\n")
 
 
+def paragraph_arm_fn(text):
+    """the arm `SectionElement::Paragraph(x) => {..}` of `section_element` as `fn paragraph_arm(x, p)` (same loop rules)"""
+    sig, body = extract_fn(text, "section_element")
+    b0 = vC16.apply_cfg(re.sub(r"//[^\n]*", "", body).replace("\r", ""), _features())
+    m = re.search(r"SectionElement::Paragraph\(\s*(\w+)\s*\)\s*=>\s*\{", b0)
+    if not m:
+        raise AnchorLost("section_element: the arm `SectionElement::Paragraph(x)` not found")
+    x = m.group(1)
+    arm = b0[m.end():match_brace(b0, m.end() - 1) - 1]
+    arm = _para_loop(arm, x, "section_element / Paragraph")
+    if re.search(r"\breturn\b", arm):
+        raise AnchorLost("section_element / Paragraph: the arm returns early")
+    return ("fn paragraph_arm(%s: &Paragraph, p: &mut Interpreter)\n"
+            "  ensures final(p).vars == old(p).vars,          // a paragraph writes no variable\n"
+            "    final(p).evals@ == old(p).evals@ + inline_exprs(%s.elements@),   // it evaluates its inline expressions, each once, in order, and nothing else\n{\n" % (x, x)
+            + arm + "\n}\n")
+
+
 def prose_unit(text):
     return "use vstd::prelude::*;\nverus! {\n" + PROSE_MODEL + paragraph_element_fn(text) + vlib.verus_canary("canary_c10_prose", "x: u64", []) + "\n} // verus!\nfn main() {}\n"
 
 
 def comment_unit(text):
-    return "use vstd::prelude::*;\nverus! {\n" + PROSE_MODEL + paragraph_element_fn(text) + comment_fn(text) + vlib.verus_canary("canary_c10_comment", "x: u64", []) + "\n} // verus!\nfn main() {}\n"
+    return "use vstd::prelude::*;\nverus! {\n" + PROSE_MODEL + paragraph_element_fn(text) + comment_fn(text) + paragraph_arm_fn(text) + vlib.verus_canary("canary_c10_comment", "x: u64", []) + "\n} // verus!\nfn main() {}\n"
